@@ -6,6 +6,8 @@ CONSTANTS
   Window = 1
   ActiveTxs = {"t1", "t3"}
   KF_FrozenLedgerHeight = FALSE
+  KF_PlayKeepsStaleReader = FALSE
+  KF_PoolOrderAntiDep = FALSE
   KF_PoolMasksBlockOrder = FALSE
 INVARIANTS TypeOK PureFn Conservation IrrDef
 PROPERTIES IrrMonotone IrrKept
